@@ -49,7 +49,7 @@ ASSUMPTIONS = [
 MUST_REACH = {"steps": 5000, "states": 300, "orphans_adopted": 20, "cascade_kills": 20, "region_moves": 20,
               "local_id_changes": 10, "teardowns": 20, "futures_resolved": 20, "futures_cancelled": 20, "reparents": 20,
               "multi_orphan_lists": 10, "kills_of_unknown_with_orphans": 5, "steps_without_loop_iteration": 50, "requests_pending_when_object_left": 5, "object_manager_configs_covered": 3,
-              "avatar_updates": 50, "multi_object_messages": 20, "viewer_cache_hits": 20, "viewer_cache_hits_only_in_rewritten_files": 4, "viewer_cache_chains_loaded": 5,
+              "avatar_updates": 50, "multi_object_messages": 20, "viewer_cache_hits": 20, "stragglers_after_teardown": 20, "teardowns_with_nothing_tracked_anywhere": 5, "viewer_cache_hits_only_in_rewritten_files": 4, "viewer_cache_chains_loaded": 5,
               "viewer_cache_hits_on_tracked_objects": 5, "requests_abandoned_while_others_wait": 20}
 
 HA = (1000 << 32) | 1000
@@ -334,6 +334,8 @@ ACTIONS = [
     ("PA1", "P", (1, False)), ("FA2", "P", (2, True)), ("PA4", "P", (4, False)),
     ("KA1", "K", ("A", (1,))), ("KA2", "K", ("A", (2,))), ("KA5", "K", ("A", (5,))), ("KA12", "K", ("A", (1, 2))), ("KB1", "K", ("B", (1,))),
     ("DA", "D", ("A",)), ("DB", "D", ("B",)),
+    # ... with a straggler: an update of the torn-down region that arrives before the region is brought up again
+    ("DAs", "D", ("A", 5)), ("DBs", "D", ("B", 4)),
     # "!": a locally originated action after which the event loop does not get to run before the next action
     ("DA!", "D", ("A",)), ("RA1!", "R", ("A", 1, "objects")),
     ("RA1", "R", ("A", 1, "objects")), ("RA5", "R", ("A", 5, "objects")), ("QA1", "R", ("A", 1, "properties")),
@@ -601,14 +603,24 @@ class World:
             for l in killed_locals:
                 self.expect_cancelled(rn, l)
         elif kind == "D":
-            rn, = args
+            rn = args[0]
+            straggler = len(args) > 1
             self.path.append(name)
             ctx.count("teardowns")
+            if not m.objs:
+                ctx.count("teardowns_with_nothing_tracked_anywhere")
             for f in [f for f, v in m.objs.items() if v[0] == rn]:
                 del m.objs[f]
             region = self.regions[rn]
             try:
                 region.mark_dead()
+                if straggler:
+                    # a datagram of the region that was still on its way: an update for an object nobody tracks (anymore).
+                    # The region is unloaded - nothing of it is tracked until it is brought up again
+                    fidx = args[1]
+                    if fidx not in m.objs:
+                        self.handle(rn, object_update(HANDLES[rn], fidx, FULL[fidx], 0))
+                        ctx.count("stragglers_after_teardown")
                 self.session.objects.track_region_objects(region.handle)
                 region.circuit.is_alive = True
                 if self.cfg == 2 and rn == "A":
